@@ -641,6 +641,14 @@ class Unit:
                 except (LostAnchor, Unsupported):
                     pass
         header, body = fn_split(text)
+        if not stub_reason and body is not None:
+            # an exec closure left in the body after the rewrite rules has no contract: Verus sees nothing of what it computes, so
+            # a proof that depends on it can only fail for lack of information.  Unsupported construct (UNDECIDED), not a violation.
+            ct = rl.code_toks(rl.lex(body))
+            for k, t in enumerate(ct):
+                if t.kind == "punct" and t.text == "|" and k > 0 and (ct[k - 1].text in ("=", "(", ",", "{", ";", "move", "return") and not (ct[k - 1].text == "=" and k > 1 and ct[k - 2].text in ("|", "!", "<", ">", "="))):
+                    stub_reason = "Unsupported: closure without a contract in the body (`%s`)" % rl.norm_ws(body[t.start:t.start + 40])
+                    break
         if not stub_reason and body is not None and (loops or proofs):
             # pre-flight: the loop invariants / proof hints must still find their anchors in this body; if not, only this
             # function leaves the annotations' reach (stub), not the whole unit
